@@ -208,9 +208,23 @@ def one_history(ctx, rng, N, batch, ci, dist):
     same_dict = rng.random() < 0.5
     run_inputs = [base_inputs if same_dict else dict(base_inputs) for _ in range(R)]
     run_graphs = [G2 if (G2 is not None and i == 1) else G for i in range(R)]
+    # one run ALSO supplies its own list for a parameter that has a signature default; the later runs omit it again and must
+    # get a fresh copy of the default - never the object an earlier caller passed in
+    extra_run, extra_param, extra_obj = None, None, None
+    dparams = sorted({p for n in g["nodes"] for p, v in n["defaults"].items() if isinstance(v, list)})
+    if not same_dict and not nested and dparams and rng.random() < 0.35:
+        extra_run = rng.randint(0, R - 2)
+        if run_graphs[extra_run] is G:
+            extra_param = rng.choice(dparams)
+            extra_obj = [rng.randint(6, 9)]
+            w.register(extra_obj)
+            run_inputs[extra_run][extra_param] = extra_obj
+            dist["extra_input_runs"] = dist.get("extra_input_runs", 0) + 1
+        else:
+            extra_run = None
     snap_inputs = [(id(d), [(k, id(v)) for k, v in d.items()]) for d in run_inputs]
     case = {"graph": g, "mode": mode, "runs": R, "pure": pure, "inputs": {k: (list(v) if isinstance(v, list) else v) for k, v in base_inputs.items()},
-            "second_graph_run": 1 if G2 is not None else None}
+            "second_graph_run": 1 if G2 is not None else None, "extra_input": None if extra_run is None else {"run": extra_run, "param": extra_param}}
     dist["mode"][mode] = dist["mode"].get(mode, 0) + 1
     dist["pure"] += pure
     results = [None] * R
@@ -260,7 +274,11 @@ def one_history(ctx, rng, N, batch, ci, dist):
     for (rid, nm, codes, before, after, out, ids) in w.rec:
         n = by_name[nm]
         for p, code, bf in zip(n["inputs"], codes, before):
-            if p in n["defaults"] and isinstance(n["defaults"][p], list):
+            if extra_run is not None and rid == extra_run and p == extra_param:
+                xcode = 2 + next(k for k, o in enumerate(w.known) if o is extra_obj)
+                if code != xcode:
+                    ctx.violation("oracle", f"run {rid}: {nm}.{p} did not receive the list its caller supplied (code {code}, expected {xcode})", case=case)
+            elif p in n["defaults"] and isinstance(n["defaults"][p], list):
                 dcode = 2 + next(k for k, o in enumerate(w.known) if o is w.defaults[(nm, p)])
                 if code == dcode:
                     ctx.violation("oracle", f"run {rid}: {nm} received its own default object for {p} (not a copy)", case=case)
@@ -282,6 +300,8 @@ def one_history(ctx, rng, N, batch, ci, dist):
     if pure:
         ref = {}
         for i in range(R):
+            if i == extra_run:
+                continue            # this run had one more input
             key = id(run_graphs[i])
             if key in ref and results[i] != ref[key]:
                 ctx.violation("oracle", f"equal inputs, different results: run {i} returned {results[i]}, an earlier run {ref[key]}", case=case)
